@@ -1,3 +1,4 @@
+import BobModel.Generated.ConstsC12
 /-
 Model of the git side of C12: an abstract git repository and the part of
 pym/bob/scm/git.py that decides what happens to an existing clone
@@ -285,14 +286,22 @@ def switchAct (ops : GitOps) (old new : GitSpec) : Act := fun r =>
 
 /-! ## spec level: `canSwitch` -/
 
-/-- `GitScm.canSwitch` for the properties that the model carries (all others equal) -/
+/-- `GitScm.canSwitch` for the properties that the model carries (all others equal).  The set of
+properties an inline switch may change and the set of ignored properties come from the current
+source (`Generated/ConstsC12.lean`). -/
 def canSwitch (old new : GitSpec) : Bool :=
-  let diffDir := old.dir != new.dir
-  let diffSub := old.submodules != new.submodules && !( !old.submodules && new.submodules)
-  let diffRef := old.url != new.url || old.branch != new.branch || old.tag != new.tag || old.commit != new.commit
-  -- `useBranchAndCommit` is filtered; enabling submodules is ok
-  if diffDir || diffSub then false
-  else if !diffRef then true
+  let diff : List String :=
+    (if old.url != new.url then ["url"] else []) ++
+    (if old.branch != new.branch then ["branch"] else []) ++
+    (if old.tag != new.tag then ["tag"] else []) ++
+    (if old.commit != new.commit then ["commit"] else []) ++
+    (if old.dir != new.dir then ["dir"] else []) ++
+    (if old.useBranchAndCommit != new.useBranchAndCommit then ["useBranchAndCommit"] else []) ++
+    -- enabling submodules is ok
+    (if old.submodules != new.submodules && !(!old.submodules && new.submodules) then ["submodules"] else [])
+  let diff := diff.filter (fun p => !Consts.C12.gitIgnoredProps.contains p)
+  if diff.isEmpty then true
+  else if !diff.all (fun p => Consts.C12.gitSwitchable.contains p) then false
   else !new.submodules
 
 /-! ## `GitScm.status` and `ScmStatus` -/
@@ -306,8 +315,19 @@ structure Taints where
   unknown : Bool := false
   deriving DecidableEq, Repr
 
-def Taints.dirty (t : Taints) : Bool := t.modified || t.error || t.switched || t.unpushedMain
-def Taints.expendable (t : Taints) : Bool := !t.dirty && !t.unpushedLocal && !t.unknown
+/-- is the taint with the given `ScmTaint` name set -/
+def Taints.has (t : Taints) : String → Bool
+  | "modified" => t.modified
+  | "error" => t.error
+  | "switched" => t.switched
+  | "unpushed_main" => t.unpushedMain
+  | "unpushed_local" => t.unpushedLocal
+  | "unknown" => t.unknown
+  | _ => false
+
+/-- `ScmStatus.dirty` / `ScmStatus.expendable`; the taint sets come from the current source -/
+def Taints.dirty (t : Taints) : Bool := Consts.C12.dirtyTaints.any t.has
+def Taints.expendable (t : Taints) : Bool := !t.dirty && !Consts.C12.notExpendableTaints.any t.has
 
 /-- is `c` reachable from one of the tips -/
 def covered (D : Dag) (tips : List Commit) (c : Commit) : Bool :=
